@@ -17,6 +17,7 @@ code -> spec  random large images (noise, blobs, non-convex, multi-piece) are lo
 from __future__ import annotations
 
 import json
+import math
 import random
 from fractions import Fraction
 
@@ -216,16 +217,57 @@ PALETTE = [
     ([24], [True]), ([37], [False]),
     ([8, 8], [True, True]), ([12, 9], [True, False]), ([7, 16], [False, True]), ([16, 16], [True, True]),
     ([5, 5, 6], [True, True, True]), ([4, 6, 5], [True, False, True]),
+    ([15, 23], [False, False]), ([5, 4, 6], [False, False, False]),
 ]
 
 
-def _gen_image(rng: random.Random):
+def _gen_image(rng: random.Random, sd: int = 0):
     shape, per = PALETTE[rng.randrange(len(PALETTE))]
+    dx, _ = locate.variant(sd, len(shape))
     shape, per = list(shape), list(per)
     dim = len(shape)
     style = rng.choice(["noise", "blobs", "rings", "stripes"])
     npr = np.random.default_rng(rng.randrange(2**31))
-    if style == "noise":
+    if shape == [15, 23] and rng.random() < 0.5:
+        style = "sandwich"
+    if style == "sandwich":
+        # polydisperse: two long thin bars a few rows apart (their equal-volume spheres overlap although the bars do
+        # not touch) and two single cells on the far sides, each nearer to its bar's centre than the other bar is but
+        # outside the bar's sphere -- the overlapping pair is nobody's nearest neighbour.  Geometry in physical units.
+        m = np.zeros(shape, bool)
+        d0, d1 = dx
+        rs = math.sqrt(d0 * d1 / math.pi)
+        feas = []
+        for la in range(9, 22):
+            for lb in range(9, 22):
+                rA, rB = math.sqrt(la * d0 * d1 / math.pi), math.sqrt(lb * d0 * d1 / math.pi)
+                for g in range(2, 7):
+                    for off in (0, 1, 2):
+                        # centres: A at column ca + la/2, B at cb + lb/2; off = column offset of the centres in half cells
+                        dab = math.hypot(g * d0, off * 0.5 * d1)
+                        if not dab < rA + rB - 0.05 * d0:
+                            continue
+                        for sa in range(2, 6):
+                            for sb in range(2, 6):
+                                if (rA + rs + 0.05 * d0 < sa * d0 < dab - 0.05 * d0 and rB + rs + 0.05 * d0 < sb * d0 < dab - 0.05 * d0
+                                        and sa + g + sb <= shape[0] - 1 and (la - lb - off) % 2 == 0):
+                                    feas.append((la, lb, g, off, sa, sb))
+        if feas:
+            la, lb, g, off, sa, sb = rng.choice(feas)
+            ra = sa + rng.randint(0, shape[0] - 1 - (sa + g + sb))
+            rb = ra + g
+            ca = rng.randint(0, shape[1] - max(la, lb) - 2)
+            cb = ca + (la - lb - off) // 2 + off       # centre of B = centre of A + off/2 cells
+            cb = max(0, min(cb, shape[1] - lb))
+            m[ra, ca : ca + la] = True
+            m[rb, cb : cb + lb] = True
+            m[ra - sa, ca + (la - 1) // 2] = True
+            m[rb + sb, cb + (lb - 1) // 2] = True
+        else:
+            style = "noise"
+    if style == "sandwich":
+        pass
+    elif style == "noise":
         m = npr.random(shape) < rng.choice([0.05, 0.2, 0.4, 0.6])
     elif style == "blobs":
         m = np.zeros(shape, bool)
@@ -269,7 +311,7 @@ def _random_chunk(seeds):
     out = []
     for sd in seeds:
         rng = random.Random(sd)
-        shape, per, m = _gen_image(rng)
+        shape, per, m = _gen_image(rng, sd)
         cells = [list(map(int, c)) for c in np.argwhere(m)]
         case = {"shape": shape, "periodic": per, "cells": cells, "idx": sd, "seed": sd}
         try:
